@@ -1,4 +1,7 @@
+#[cfg(not(mila_verif))]
 use indexmap::IndexMap;
+#[cfg(mila_verif)]
+use crate::verif_support::IndexMap;
 
 use crate::encoded_strings::{to_shift_jis, to_utf_16};
 use crate::{BinArchive, BinArchiveReader, EncodedStringReader, Endian, TextArchiveError};
@@ -213,5 +216,19 @@ mod test {
 
         let keys: Vec<String> = archive.entries.keys().cloned().collect();
         assert_eq!(vec!["Key1".to_string(), "Key2".to_string()], keys);
+    }
+}
+
+#[cfg(mila_verif)]
+pub mod verif_hooks {
+    //! Verification-build access to the private helpers of this module (wrappers only).
+    use super::Result;
+
+    pub fn write_shift_jis_string(bytes: &mut Vec<u8>, string: &str) -> Result<()> {
+        super::write_shift_jis_string(bytes, string)
+    }
+
+    pub fn write_utf_16_string(bytes: &mut Vec<u8>, string: &str) -> Result<()> {
+        super::write_utf_16_string(bytes, string)
     }
 }
